@@ -41,8 +41,41 @@ SENSES = {'le': '<=', 'ge': '>=', 'eq': '=='}
 INTMAX, REALMAX = F(2 ** 53 - 1), F(1e30)
 
 
+def dy_long(r):
+    """numbers that need many significant digits (7..16): large integers up to 2**53, dyadic fractions with up to 10 binary places.
+    All are doubles whose exact decimal expansion has at most 15 significant digits (or integers below 1e16), so that
+    `repr(float)` is that expansion, and all lie in repr's positional range 1e-4 <= |q| < 1e16."""
+    m = r.random()
+    if m < .3:
+        q = F(r.choice([1234567, 10 ** 6 + 1, 2 ** 24 + 1, 2 ** 31 - 1, 2 ** 40 + 3, 10 ** 15 + 1, 2 ** 53 - 1, 2 ** 53, 123456789012]))
+    elif m < .5:
+        q = F(r.randint(10 ** 6, 10 ** 13))
+    else:
+        j = r.choice([4, 6, 8, 10])
+        q = F(r.randint(1, 2 ** 24) * 2 + 1, 2 ** j)
+    return q if r.random() < .5 else -q
+
+
+def short_decimal(q):
+    """an integer below 1e16 in magnitude, or a terminating decimal of at most 15 significant digits: `repr(float(q))` is then the
+    exact positional expansion"""
+    if q.denominator == 1:
+        return abs(q) < 10 ** 16
+    k = 0
+    while (q * 10 ** k).denominator != 1:
+        k += 1
+        if k > 40:
+            return False
+    return len(str(abs(int(q * 10 ** k)))) <= 15 and abs(q) >= F(1, 10 ** 4)
+
+
+LONG = [0.0]          # share of long numbers in the stream (set by run)
+
+
 def dy(r, nz=False):
     while True:
+        if r.random() < LONG[0]:
+            return dy_long(r)
         q = F(r.randint(-64, 64), 8) if r.random() < .6 else F(r.randint(-8, 8))
         if q or not nz:
             return q
@@ -88,7 +121,10 @@ class Gen:
         self.cons = []
         for i in range(r.choice([0, 1, 1, 2, 3, 4])):
             e = self.gen_expr(r, allow_empty=r.random() < .05, wrapmode=wrapmode)
-            self.cons.append((gen_label(r, used, long=r.random() < .05), e, r.choice(['le', 'ge', 'eq']), dy(r)))
+            rhs = dy(r)
+            if F(float(rhs) - float(e[2])) != rhs - e[2] or not short_decimal(rhs - e[2]):
+                e = (e[0], e[1], F(0))       # the writer folds the constant into the right-hand side in double arithmetic: keep that exact
+            self.cons.append((gen_label(r, used, long=r.random() < .05), e, r.choice(['le', 'ge', 'eq']), rhs))
 
     def gen_expr(self, r, allow_empty, wrapmode=False):
         names = [v[0] for v in self.vars]
@@ -296,7 +332,12 @@ def run(ctx):
     n_models = ctx.scale(3000, 40000)
     for mi in range(n_models):
         wrapmode = mi % 5 == 4
+        # every third model draws a quarter of its numbers (coefficients, offsets, right-hand sides) from the many-digit stream
+        LONG[0] = .25 if mi % 3 == 1 else 0.0
         g = Gen(r, wrapmode=wrapmode)
+        LONG[0] = 0.0
+        if mi % 3 == 1:
+            ctx.tick('numbers: many significant digits')
         bad = None
         kw = {}
         if r.random() < .15:
